@@ -46,7 +46,7 @@ var builtinRenames = []struct {
 var callParams = []string{"pa", "pb", "pc"}
 
 // names that must not be visible after the calls/cases that created them
-var callProbeNames = []string{"pa", "pb", "pc", "la", "li", "lx", "mq", "ma", "loc1", "loc2", "ga", "ca", "va", "rn", "en", "on", "na", "ra", "loc3", "da", "dx", "dq", "oa", "qa", "ma1", "ma2", "mo", "mb1", "mb2", "qb", "loc4", "loc5", "wn", "wx", "lq", "lm1", "lother", "lb", "lbo", "ml1", "mlo", "wa", "t1", "t2", "t3", "fa", "fl", "fr", "ns", "nc", "sa", "acc", "sacc", "lacc", "fo", "fs", "fn", "mz1", "mz2", "mz3", "mz4", "show2", "mn1", "mn2", "mno", "zs", "zq", "rv1", "ak", "mfv", "mf1", "mcreated"}
+var callProbeNames = []string{"pa", "pb", "pc", "la", "li", "lx", "mq", "ma", "loc1", "loc2", "ga", "ca", "va", "rn", "en", "on", "na", "ra", "loc3", "da", "dx", "dq", "oa", "qa", "ma1", "ma2", "mo", "mb1", "mb2", "qb", "loc4", "loc5", "wn", "wx", "lq", "lm1", "lother", "lb", "lbo", "ml1", "mlo", "wa", "t1", "t2", "t3", "fa", "fl", "fr", "ns", "nc", "sa", "acc", "sacc", "lacc", "fo", "fs", "fn", "mz1", "mz2", "mz3", "mz4", "show2", "mn1", "mn2", "mno", "zs", "zq", "rv1", "ak", "mfv", "mf1", "mcreated", "br", "brl", "bx", "bq"}
 
 func (c *CallCase) program() string {
 	var sb strings.Builder
@@ -131,6 +131,10 @@ function proc(qb) { loc4 = clobber(qb)
  loc5 = fid(qb) }
 function walk(wn) { if (wn is array) { for (wx in wn) { walk(wx) } } else { return wn } }
 function litmatch(lq) { return match (lq) { [] => "e", [0, 0] => "o", [1, [2, 3]] => "d", [lm1, 9] => ["n", lm1], lother => "x" } }
+function bareret(br) { brl = clobber(br)
+ if (br is number) { return }
+ for (bx in [1]) { match (clobber(br)) { bq => { return } } }
+ return "NOT REACHED" }
 function litblock(lb) { match (lb) { [] => { LB = "e" }, [0, 0] => { LB = "o" }, lbo => { LB = "x" } }
  return LB }
 BEGIN { G = "g0"
@@ -215,6 +219,7 @@ $.op == "walk" { print step, walk($.a[0]) }
 $.op == "mlit" { print step, match ($.a[0]) { [] => "e", [0, 0] => "o", [1, [2, 3]] => "d", [ml1, 9] => ["n", ml1], mlo => "x" } }
 $.op == "litmatch" { print step, litmatch($.a[0]) }
 $.op == "litblock" { print step, litblock($.a[0]) }
+$.op == "bareret" { print step, bareret($.a[0]), [clobber(1), bareret($.a[1])] }
 $.op == "exit" { print step, "bye"
  deepexit(1)
  print step, "NOT REACHED" }
@@ -493,6 +498,9 @@ func (c *CallCase) model() (lines []string, exited bool, ok bool) {
 			skipEOR = true
 		case "proc":
 			emit("null")
+		case "bareret":
+			// a return without a value yields null whatever an earlier, completed call returned
+			emit("null " + p(arr(num(99), jNull)))
 		case "walk":
 			// only a non-array argument is returned; walking an array runs off the end of the body
 			if arg(0).Kind == 'a' {
@@ -752,8 +760,8 @@ func genCallArg(t *Tape) string {
 }
 
 func genCallOp(t *Tape) CallOp {
-	ops := []string{"id0", "id1", "id2", "id3", "id4", "loopret", "mklocal", "setg", "readg", "clobber", "viaother", "rec", "mutual", "donext", "donext2", "noret", "outer", "mexpr", "mblock", "pat", "proc", "walk", "mlit", "litmatch", "litblock", "awkloc0", "awkloc1", "awkloc2", "fresh", "fresh2", "nextstr", "shadow", "clobmiss", "nextexpr", "argorder", "argincr", "mlet", "mkfresh", "mstale", "pfname", "mnext", "retval", "leafmark", "dollarparams", "mfirst"}
-	w := []int{1, 2, 2, 2, 2, 3, 3, 2, 2, 3, 2, 2, 1, 3, 2, 2, 2, 4, 3, 2, 3, 2, 3, 3, 2, 1, 2, 2, 4, 2, 2, 3, 3, 2, 3, 2, 4, 3, 4, 3, 3, 3, 3, 3, 3}
+	ops := []string{"id0", "id1", "id2", "id3", "id4", "loopret", "mklocal", "setg", "readg", "clobber", "viaother", "rec", "mutual", "donext", "donext2", "noret", "outer", "mexpr", "mblock", "pat", "proc", "walk", "mlit", "litmatch", "litblock", "awkloc0", "awkloc1", "awkloc2", "fresh", "fresh2", "nextstr", "shadow", "clobmiss", "nextexpr", "argorder", "argincr", "mlet", "mkfresh", "mstale", "pfname", "mnext", "retval", "leafmark", "dollarparams", "mfirst", "bareret"}
+	w := []int{1, 2, 2, 2, 2, 3, 3, 2, 2, 3, 2, 2, 1, 3, 2, 2, 2, 4, 3, 2, 3, 2, 3, 3, 2, 1, 2, 2, 4, 2, 2, 3, 3, 2, 3, 2, 4, 3, 4, 3, 3, 3, 3, 3, 3, 3}
 	op := ops[t.Weighted(w...)]
 	var args []string
 	switch op {
@@ -793,7 +801,7 @@ func genCallOp(t *Tape) CallOp {
 // return or next (a frame, a counter, a slot) accumulates past every fixed budget.
 func genVeryLongCase(t *Tape) *CallCase {
 	c := &CallCase{Arity: t.Draw(4), LoopKind: []string{"for", "while", "forin", "match", "matchblock", "if", "forinstr"}[t.Draw(7)]}
-	kinds := []string{"donext", "id1", "loopret", "mexpr", "mblock", "noret", "proc", "nextstr", "donext2", "clobber", "mlit", "nextexpr", "nextexpr", "litblock", "mnext"}
+	kinds := []string{"donext", "id1", "loopret", "mexpr", "mblock", "noret", "proc", "nextstr", "donext2", "clobber", "mlit", "nextexpr", "nextexpr", "litblock", "mnext", "bareret"}
 	dom := kinds[t.Draw(len(kinds))]
 	n := 110000 + t.Draw(30000)
 	mk := func(k string) CallOp {
